@@ -166,7 +166,7 @@ theorem silent_table (t : Transport) (m : Msg) (o : Outcome) (wok : Bool)
       | .udp => { status := stNone, msgs := [] }
       | .tcp | .dot => { status := stClosed, msgs := [] }
       | .dohPost | .dohGet | .dohJSON => { status := stHTTP500, msgs := [] }
-      | .doq => { status := stOpen, msgs := [setRcode m rcServFail] }
+      | .doq => { status := stOpen, msgs := [setRcode m rcServFail], fin := true }
       | .dnscryptUDP | .dnscryptTCP => { status := stNone, msgs := [setRcode m rcServFail] } := by
   unfold serveMsg
   rw [if_neg hq, hw]
@@ -199,7 +199,7 @@ example : HdrAgrees [0xab, 0xcd, 1, 0, 0, 1, 0, 0, 0, 0, 0, 0, 3] sampleHdrOnly 
 option closes the connection with a protocol error and is never answered. -/
 theorem doq_keepalive_is_protocol_error (m : Msg) (o : Outcome) (wok : Bool)
     (h : m.edns = true ∧ m.keepalive = true) :
-    serveMsg .doq m o wok = { status := stProtoErr, msgs := [] } := by
+    serveMsg .doq m o wok = { status := stProtoErr, msgs := [], fin := true } := by
   simp [serveMsg, validQUICMsg, h.1, h.2]
 
 /-- **dispose_after_last_use.** On every transport, under the worst concurrent
@@ -301,6 +301,267 @@ theorem json_front_end (j : JSONReq) (id : Nat) :
 
 example : (jsonToMsg sampleJSON 5).isSome = true := by decide
 
+/-! ## Deepening: pipeline answer, table specification, wire input, loops, buffers -/
+
+/-- **answer_is_pipelines.** An accepted query whose pipeline wrote `r` is answered
+with exactly `r` — its rcode and records — on every transport whose socket works
+(the DoQ keep-alive protocol error aside); a pipeline error is answered with
+exactly the SERVFAIL of that request. -/
+theorem answer_is_pipelines (t : Transport) (m : Msg) (hacc : acceptMsg m = .accept)
+    (hq : ¬ (t = .doq ∧ validQUICMsg m = false)) :
+    (∀ r, (serveMsg t m (.wrote r) true).msgs = [r]) ∧
+    (∀ ne, (serveMsg t m (.failed ne) true).msgs = [servFail m ne]) := by
+  constructor
+  · intro r
+    unfold serveMsg; rw [if_neg hq]; unfold serveCore; rw [hacc]
+    cases t <;> simp [deliver, lastOr]
+  · intro ne
+    unfold serveMsg; rw [if_neg hq]; unfold serveCore; rw [hacc]
+    cases t <;> simp [deliver, lastOr]
+
+example : acceptMsg sampleQuery = .accept ∧ ¬ (Transport.doq = .doq ∧ validQUICMsg sampleQuery = false) := by decide
+
+/-- **spec_table.** The operational model (`acceptMsg` → writes → per-transport
+delivery) coincides with the table-shaped specification `specMsgs`, which is
+written from the property statement: classify the message; a response is
+dropped, an unsupported opcode gets NOTIMP, wrong counts get FORMERR, an
+accepted query gets the pipeline's answer or SERVFAIL — each exactly once if
+the socket works — and DoQ/DNSCrypt turn "nothing" into a SERVFAIL. -/
+theorem spec_table (t : Transport) (m : Msg) (o : Outcome) (wok : Bool) (hc : Contract o wok) :
+    (serveMsg t m o wok).msgs = specMsgs t m o wok := by
+  unfold serveMsg specMsgs
+  by_cases hq : t = .doq ∧ validQUICMsg m = false
+  · have hq' : t = .doq ∧ m.edns = true ∧ m.keepalive = true := ⟨hq.1, (validQUIC_false_iff m).mp hq.2⟩
+    rw [if_pos hq, if_pos hq']
+  · have hq' : ¬ (t = .doq ∧ m.edns = true ∧ m.keepalive = true) :=
+      fun h => hq ⟨h.1, (validQUIC_false_iff m).mpr h.2⟩
+    rw [if_neg hq, if_neg hq']
+    have hcl := classify_accept m
+    cases hact : acceptMsg m with
+    | ignore =>
+      rw [hcl.1.mpr hact]; simp only [serveCore, hact]
+      cases t <;> cases wok <;> simp [deliver, lastOr, Transport.synthesises, rcServFail, errResp_eq_setRcode]
+    | notimp =>
+      rw [hcl.2.1.mpr hact]; simp only [serveCore, hact]
+      cases t <;> cases wok <;> simp [deliver, lastOr, Transport.nonWriter, rcNotImp, errResp_eq_setRcode]
+    | formerr =>
+      rw [hcl.2.2.1.mpr hact]; simp only [serveCore, hact]
+      cases t <;> cases wok <;> simp [deliver, lastOr, Transport.nonWriter, rcFormErr, errResp_eq_setRcode]
+    | accept =>
+      rw [hcl.2.2.2.mpr hact]; simp only [serveCore, hact]
+      cases o with
+      | silent => cases t <;> cases wok <;> simp [deliver, lastOr, Transport.synthesises, rcServFail, errResp_eq_setRcode]
+      | wrote r => cases t <;> cases wok <;> simp [deliver, lastOr, Transport.nonWriter]
+      | failed ne => cases t <;> cases wok <;> simp [deliver, lastOr, Transport.nonWriter, ← servFail_eq_errResp']
+      | wroteFailed r ne =>
+        have hw : wok = false := hc r ne rfl
+        subst hw
+        cases t <;> simp [deliver, lastOr, Transport.nonWriter, ← servFail_eq_errResp']
+
+example : specMsgs .udp sampleStatus .silent true = [errResp sampleStatus 4 none] := by decide
+example : specMsgs .doq sampleResponse (.wrote (handlerResp sampleResponse 0 1)) true = [errResp sampleResponse 2 none] := by decide
+
+/-- **short_input_dropped.** With any sound decoder, fewer than 12 octets elicit no
+DNS message on any transport — whatever the pooled DoQ buffer held before.
+(UDP and DoQ check the length themselves; elsewhere `Unpack` fails.) -/
+theorem short_input_dropped (t : Transport) (pool b : List Nat) (unpack : List Nat → Option Msg)
+    (hu : UnpackOK unpack) (o : Outcome) (wok : Bool) (hs : b.length < 12) :
+    (serveBytes t pool b unpack o wok).msgs = [] := by
+  rcases serveBytes_cases t pool b unpack o wok with h | ⟨h, _⟩ | ⟨_, h2, _⟩
+  · rw [h]; exact dropped_msgs t
+  · rw [h, unpack_none_of_short unpack hu b hs]; exact dropped_msgs t
+  · unfold udpBufSize at h2; omega
+
+
+example : UnpackOK sampleUnpack := sampleUnpack_ok
+
+/-- **bad_question_dropped.** A message whose header announces a question but whose
+question does not parse (label overruns the message, reserved label type, name
+longer than 255 octets, type cut in half) is dropped on every transport. -/
+theorem bad_question_dropped (t : Transport) (pool b : List Nat) (unpack : List Nat → Option Msg)
+    (hu : UnpackOK unpack) (o : Outcome) (wok : Bool) (h : Hdr)
+    (hlen : t = .udp → b.length ≤ udpBufSize)
+    (hp : parseHdr b = some h) (hqd : h.qd ≥ 1) (hb : b.length > 12)
+    (hq : parseQuestion (b.drop 12) = .bad) :
+    (serveBytes t pool b unpack o wok).msgs = [] := by
+  have hnone : unpack b = none := by
+    cases hb' : unpack b with
+    | none => rfl
+    | some m =>
+      have := hu b m hb'
+      unfold WireAgrees wireAgreesB at this
+      have h1 : ¬ (b.length ≤ 12) := by omega
+      have h2 : ¬ (h.qd = 0) := by omega
+      simp [hp, hq, h1, h2] at this
+  rcases serveBytes_cases t pool b unpack o wok with h | ⟨h, _⟩ | ⟨ht, h2, _⟩
+  · rw [h]; exact dropped_msgs t
+  · rw [h, hnone]; exact dropped_msgs t
+  · have := hlen ht; omega
+
+
+example : parseQuestion [70, 1, 2] = .bad ∧ parseQuestion [3, 119, 119] = .bad ∧ parseQuestion [1, 97, 0, 0] = .bad := by
+  decide
+
+/-- **bytes_question.** Tied to wire input: whatever any transport delivers for the
+octets `b` carries the id in `b[0..2]` and exactly the question spelled out in `b`
+after the header (uncompressed name, type, class) — mixed case, maximum length
+and all — given a sound decoder and a handler that answers the request it got. -/
+theorem bytes_question (t : Transport) (pool b : List Nat) (unpack : List Nat → Option Msg)
+    (hu : UnpackOK unpack) (o : Outcome) (wok : Bool)
+    (hh : ∀ m, unpack b = some m → HandlerMatches m o) (h : Hdr) (q : Question)
+    (hlen : t = .udp → b.length ≤ udpBufSize)
+    (hp : parseHdr b = some h) (hqd : h.qd ≥ 1) (hb : b.length > 12)
+    (hq : parseQuestion (b.drop 12) = .ok q) :
+    ∀ r ∈ (serveBytes t pool b unpack o wok).msgs, r.id = h.id ∧ r.questions = [q] := by
+  intro r hr
+  rcases serveBytes_cases t pool b unpack o wok with hd | ⟨hs, _⟩ | ⟨ht, h2, _⟩
+  · rw [hd, dropped_msgs] at hr; simp at hr
+  · rw [hs] at hr
+    cases hb' : unpack b with
+    | none => rw [hb'] at hr; simp [serveWire, dropped_msgs] at hr
+    | some m =>
+      rw [hb'] at hr
+      have hm := response_matches t m o wok (hh m hb') r hr
+      have hw := hu b m hb'
+      unfold WireAgrees wireAgreesB at hw
+      have h1 : ¬ (b.length ≤ 12) := by omega
+      have h2 : ¬ (h.qd = 0) := by omega
+      simp [hp, hq, h1, h2] at hw
+      obtain ⟨⟨⟨⟨⟨hid, _⟩, _⟩, _⟩, _⟩, hqq⟩ := hw
+      refine ⟨by rw [hm.1, hid], ?_⟩
+      rw [hm.2]
+      cases hqs : m.questions with
+      | nil => rw [hqs] at hqq; simp at hqq
+      | cons q' rest => rw [hqs] at hqq; simp at hqq; simp [hqq]
+  · have := hlen ht; omega
+
+
+example : parseHdr sampleWire = some ⟨0xabcd, false, 0, true, false, 0, 1, 0, 0, 0⟩ ∧
+    parseQuestion (sampleWire.drop 12) = .ok ⟨hexStr [3, 119, 119, 119, 0], 1, 1⟩ ∧
+    sampleUnpack sampleWire = some sampleWireMsg := by decide
+
+/-- **doq_stream_finished.** Whatever arrives on a DoQ stream — acceptable or not,
+answered or not — the server finishes its side of the stream, so a response that
+was sent is complete for the client. -/
+theorem doq_stream_finished (pool b : List Nat) (unpack : List Nat → Option Msg) (o : Outcome) (wok : Bool) :
+    (serveBytes .doq pool b unpack o wok).fin = true := by
+  have hw : ∀ um, (serveWire .doq um o wok).fin = true := by
+    intro um
+    cases um with
+    | none => rfl
+    | some m =>
+      show (serveMsg .doq m o wok).fin = true
+      unfold serveMsg
+      split <;> rfl
+  unfold serveBytes
+  cases unpackInput .doq pool b with
+  | none => rfl
+  | some p => exact hw _
+
+
+/-- **udp_listener_survives.** No sequence of datagrams — short, undecodable,
+rejected or accepted — ends the UDP accept loop, and every datagram is treated
+exactly as it would be on its own (no datagram influences the treatment of a
+later one); only a critical socket error stops the loop. -/
+theorem udp_listener_survives (unpack : List Nat → Option Msg) (handler : Msg → Outcome) (wok : Bool)
+    (reads : List UdpRead) (hno : ∀ r ∈ reads, r ≠ .critErr) :
+    (udpLoop true unpack handler wok reads).2 = true ∧
+    (udpLoop true unpack handler wok reads).1 = reads.flatMap (perDatagram unpack handler wok) := by
+  induction reads with
+  | nil => simp [udpLoop]
+  | cons r rest ih =>
+    have hr : udpAcceptFails true r = false := by
+      cases r with
+      | critErr => exact absurd rfl (hno _ (by simp))
+      | softErr => rfl
+      | dgram b => simp [udpAcceptFails]
+    have ih' := ih (fun x hx => hno x (List.mem_cons_of_mem _ hx))
+    unfold udpLoop
+    simp only [hr, Bool.false_eq_true, if_false]
+    refine ⟨ih'.1, ?_⟩
+    rw [List.flatMap_cons, ih'.2]
+    cases r <;> rfl
+
+
+example : ∀ r ∈ [UdpRead.dgram [1, 2, 3], .softErr, .dgram sampleWire], r ≠ .critErr := by decide
+
+/-- **udp_short_read_counterexample.** The statement depends on the error filter of
+`acceptUDPMsg` letting `dns.ErrShortRead` pass: without it a three-octet datagram
+ends the loop.  (Replayed by the harness under `listener-exit-udp`.) -/
+theorem udp_short_read_counterexample :
+    ¬ (∀ unpack handler wok reads, (∀ r ∈ reads, r ≠ UdpRead.critErr) →
+        (udpLoop false unpack handler wok reads).2 = true) := by
+  intro h
+  have := h (fun _ => none) (fun _ => .silent) true [.dgram [1, 2, 3]] (by simp)
+  revert this
+  decide
+
+
+/-- **conn_prefix.** On one TCP/DoT connection what the clients sees is, frame by
+frame, what each frame would get on its own, up to the first frame for which
+nothing is written (then the server closes the connection). -/
+theorem conn_prefix (t : Transport) (unpack : List Nat → Option Msg) (wok : Bool)
+    (fs : List (List Nat × Outcome)) :
+    serveConn t unpack wok fs <+: fs.map (fun f => serveWire t (unpack f.1) f.2 wok) := by
+  induction fs with
+  | nil => simp [serveConn]
+  | cons f rest ih =>
+    obtain ⟨b, o⟩ := f
+    unfold serveConn
+    simp only [List.map_cons]
+    split
+    · exact ⟨_, rfl⟩
+    · exact List.prefix_cons_inj _ |>.mpr ih
+
+
+/-- **conn_each_answered.** Pipelined queries: if every frame gets a write, every
+frame is answered, in order, exactly as it would be on its own. -/
+theorem conn_each_answered (t : Transport) (unpack : List Nat → Option Msg) (wok : Bool)
+    (fs : List (List Nat × Outcome))
+    (hopen : ∀ f ∈ fs, (serveWire t (unpack f.1) f.2 wok).status ≠ stClosed) :
+    serveConn t unpack wok fs = fs.map (fun f => serveWire t (unpack f.1) f.2 wok) := by
+  induction fs with
+  | nil => simp [serveConn]
+  | cons f rest ih =>
+    obtain ⟨b, o⟩ := f
+    unfold serveConn
+    have h1 := hopen (b, o) (by simp)
+    simp only [List.map_cons]
+    rw [if_neg h1, ih (fun f hf => hopen f (List.mem_cons_of_mem _ hf))]
+
+
+example : (serveWire .tcp (sampleUnpack sampleWire) (.failed false) true).status ≠ stClosed := by decide
+
+/-- **byte_buffers_released_after_last_use.** The pooled byte buffers — request
+bytes until `Unpack` has copied them, packed response until the socket write
+returned — are never read after they went back to their pool, on any transport,
+under the worst schedule (a concurrent request overwrites a buffer right after
+every `Put`). -/
+theorem byte_buffers_released_after_last_use (t : Transport) (werr : Bool) :
+    (∀ c ∈ (runLife (reqBufLife t)).sent, c = none) ∧ (runLife (reqBufLife t)).clobbered = false ∧
+    (∀ c ∈ (runLife (respBufLife t werr)).sent, c = none) ∧ (runLife (respBufLife t werr)).clobbered = false := by
+  cases t <;> cases werr <;> decide
+
+
+/-- **early_put_counterexample.** `Put` before the last use hands the concurrent
+request's bytes to `Unpack` / to the socket. -/
+theorem early_put_counterexample :
+    ¬ (∀ c ∈ (runLife [.dispose, .send]).sent, c = none) := by decide
+
+
+/-- **json_wire_variant.** The JSON API answers the same message in both of its
+encodings (`ct=application/dns-message` or JSON), at most once. -/
+theorem json_wire_variant (j : JSONReq) (id : Nat) (o : Outcome) :
+    (serveJSON j id o).1 = (serveJSONWire j id o).status ∧
+    (serveJSON j id o).2 = (serveJSONWire j id o).msgs.map jsonView ∧
+    (serveJSONWire j id o).msgs.length ≤ 1 := by
+  unfold serveJSON serveJSONWire
+  cases jsonToMsg j id with
+  | none => simp
+  | some m =>
+    refine ⟨rfl, rfl, ?_⟩
+    exact deliver_length_nonwriter .dohJSON m _ true rfl
+
 #print axioms accept_table
 #print axioms one_response
 #print axioms exactly_one
@@ -318,5 +579,18 @@ example : (jsonToMsg sampleJSON 5).isSome = true := by decide
 #print axioms quic_payload_own_bytes
 #print axioms quic_orig_counterexample
 #print axioms json_front_end
+#print axioms answer_is_pipelines
+#print axioms spec_table
+#print axioms short_input_dropped
+#print axioms bad_question_dropped
+#print axioms bytes_question
+#print axioms doq_stream_finished
+#print axioms udp_listener_survives
+#print axioms udp_short_read_counterexample
+#print axioms conn_prefix
+#print axioms conn_each_answered
+#print axioms byte_buffers_released_after_last_use
+#print axioms early_put_counterexample
+#print axioms json_wire_variant
 
 end Agd.Serve
